@@ -169,6 +169,7 @@ inline ExecResult run_one(const Scenario& sc, const std::vector<unsigned char>& 
     sh->spurious_at = spurious_at;
     sh->user[0] = (int)(&sc - scenario_table()->data());
     sh->user[1] = sc.delay ? 1 : 0;
+    sh->user[2] = 0;
     if (prefix.size() > VS_MAXPREFIX) {
         vh::out_line("ERROR prefix too long");
         exit(2);
